@@ -50,6 +50,8 @@ def rate_runs():
                                                                 dict(mk(1, 2, {"k": "right", "b": 0, "m": 1, "n": 2}), sleep_ms=1100), mk(2, 2, E)]})
         # limit 0: nothing is served
         runs.append({"id": "rate0-%d" % j, "limit": 0, "steps": [mk(0, 1, E), {"op": "post", "kind": "nosize", "log": "l1"}, {"op": "post", "kind": "unknown-origin", "log": "l1"}]})
+        # a fractional limit below 1 gives burst int(limit) = 0: nothing is ever served (what the code does; modelled by Burst = 0)
+        runs.append({"id": "ratefrac-%d" % j, "limit": 0.5, "steps": [mk(0, 1, E), dict(mk(0, 1, E), sleep_ms=2100), {"op": "post", "kind": "nosize", "log": "l1"}]})
     return runs
 
 
@@ -98,6 +100,18 @@ def c10(work, tier, seed, replay):
                 rep.notes.append(o.strip())
                 out.write(open(part).read())
                 os.remove(part)
+    # end to end: the REAL FeedBastion dials a stub bastion over TLS 1.3 (ALPN bastion/0); the stub speaks HTTP/2 as a client over that
+    # reverse connection; witness state is read back through the real read API
+    e2e = [r for r in runs if not r["id"].startswith("rate")]
+    rng.shuffle(e2e)
+    e2e = e2e[:60 if tier == "quick" else 900]
+    ep, et = work.path("e2e-runs.jsonl"), work.path("e2e.ndjson")
+    write_runs(ep, params_of(c), e2e)
+    o, dt = run_driver(["bastion-e2e", "-in", ep, "-out", et, "-dir", work.sub("db"), "-seed", str(seed)], timeout=3000)
+    rep.notes.append(o.strip() + " (%.0fs)" % dt)
+    with open(tp, "a") as out:
+        out.write(open(et).read())
+    rep.cov["end_to_end_runs"] = len(e2e)
     events = read_ndjson(tp)
     fails = bastion_judge(work, rep, c, tp)
     posts = [e for e in events if e["e"] == "post"]
@@ -113,7 +127,7 @@ def c10(work, tier, seed, replay):
     rep.cov["exhaustive"] = True
     for e in posts[:2]:
         rep.sample(e)
-    rep.assumptions += ["the overlay shim builds the handler exactly as FeedBastion does (the end-to-end variant over TLS1.3+HTTP/2 exercises the exported path)",
+    rep.assumptions += ["the overlay shim builds the in-process handler exactly as FeedBastion does; a sample of the same runs goes end to end through the exported FeedBastion over TLS 1.3 + HTTP/2",
                         "monotonic clock for the rate-limit bounds"]
     return rep.finish()
 
